@@ -158,6 +158,8 @@ func decode(p *packets.PublishPacket) (notif, error) {
 func (e *env) drain() ([]notif, error) {
 	e.seq++
 	ch := fmt.Sprintf("a/zz%d/", e.seq)
+	// keep-alive: the broker drops connections that send nothing for 120 s, and the permanent watcher only listens
+	e.perm.Send(packets.NewControlPacket(packets.Pingreq))
 	if codes, _, err := e.sentinel.Subscribe(7, e.key+"/"+ch); err != nil || codes[0] == 0x80 {
 		return nil, fmt.Errorf("sentinel subscribe: %v %v", codes, err)
 	}
